@@ -409,6 +409,7 @@ def run_(ck):
         cases += g.string_cases()
         cases += g.intlit_cases()
         cases += g.pytable_cases()
+        cases += g.threshold_cases()
         cases += g.rowshare_cases(3000 if ck.thorough else 500, depth=6 if ck.thorough else 4)
         rc_ = g.random_cases(6000 if ck.thorough else 600, depth=6 if ck.thorough else 4)
         for i, c in enumerate(rc_):
